@@ -105,7 +105,7 @@ pub fn c01(tier: Tier) -> i32 {
         "refmodel is a faithful reading of TOML 1.0.0 (validated against the toml-test corpus at setup and against tomllib in the thorough tier)".into(),
         "class U1 documents are skipped and counted (DESIGN.md 3.3)".into(),
     ];
-    docu::run(&mut rep, tier, &["tok", "ctx", "esc", "num", "edge", "dt", "stmt", "inline-stmt", "byte", "corpus", "decor", "cp", "utf8", "nest"], &c01_eval);
+    docu::run(&mut rep, tier, &["tok", "ctx", "esc", "num", "edge", "dt", "stmt", "inline-stmt", "byte", "corpus", "decor", "cp", "utf8", "nest", "reopen"], &c01_eval);
     rep.finish()
 }
 
@@ -256,7 +256,7 @@ pub fn c02(tier: Tier) -> i32 {
         "the position of a super-table that is first created implicitly and later defined by its own header is not constrained (source order is ambiguous there)".into(),
         "toml::Table (BTreeMap in the default configuration) is compared modulo key order; order is compared on the toml_edit trees".into(),
     ];
-    docu::run(&mut rep, tier, &["tok", "ctx", "esc", "num", "edge", "dt", "stmt", "stmt3", "inline-stmt", "corpus", "decor", "cp"], &c02_eval);
+    docu::run(&mut rep, tier, &["tok", "ctx", "esc", "num", "edge", "dt", "stmt", "stmt3", "inline-stmt", "corpus", "decor", "cp", "reopen"], &c02_eval);
     rep.finish()
 }
 
@@ -330,7 +330,7 @@ pub fn c09(tier: Tier) -> i32 {
         "every sequence of <= N statements from {[p], [[p]], p = 1, p = {b.a = 1}, p = [1]} over all key paths of the stated alphabet is parsed by the real parser; verdict, error class and merged tree are compared with the specification model's definition-rule engine; non-trivial = distinct sequences that the model rejects, or accepts with >= 2 statements; the outcome histogram is keyed by the rule that fired",
     );
     rep.assumptions = vec!["refmodel's definition-rule engine (DESIGN.md 3.2) is a faithful reading of TOML 1.0.0".into(), "class U1 sequences are skipped and counted".into()];
-    docu::run(&mut rep, tier, &["stmt", "stmt3", "inline-stmt", "tok-small", "decor"], &c09_eval);
+    docu::run(&mut rep, tier, &["stmt", "stmt3", "inline-stmt", "tok-small", "decor", "reopen"], &c09_eval);
     rep.finish()
 }
 
